@@ -107,3 +107,13 @@ pub fn arenas_created() -> usize {
 pub fn take_arenas_freed() -> Vec<usize> {
     std::mem::take(&mut *ARENA_FREED.lock().unwrap())
 }
+
+/// The 64-byte block primitives of the backend selected at compile time (`util::arch`), so that a
+/// harness can compare the backends with each other and with their lane-wise specification.
+pub fn prefix_xor(bitmask: u64) -> u64 {
+    unsafe { crate::util::arch::prefix_xor(bitmask) }
+}
+
+pub fn get_nonspace_bits(data: &[u8; 64]) -> u64 {
+    unsafe { crate::util::arch::get_nonspace_bits(data) }
+}
